@@ -18,12 +18,12 @@ EXTENDS CodecWire, TLC, Json
 CONSTANTS MaxLen,      \* longest program
           MaxDepth,    \* deepest push nesting
           MaxPlain,    \* at most this many non-push/pop ops in a program
-          Alphabet,    \* "core" | "wide" | "nest"
+          Alphabet,    \* "core" | "wide" | "mini" | "nest"
           Atomic,      \* TRUE: writing + reading pass of a sealed program in one step
           EmitMode     \* "all" | "push" (only programs with a push) | "none"
 
 (* ---------------------------------------------------------------- alphabets (Wide, Core, Nest: see CodecWire) *)
-PlainOps == CASE Alphabet = "wide" -> Wide [] Alphabet = "core" -> Core [] OTHER -> Nest
+PlainOps == CASE Alphabet = "wide" -> Wide [] Alphabet = "core" -> Core [] Alphabet = "mini" -> Mini [] OTHER -> Nest
 PushOps == {Ln("push_len", 0), Ln("push_varlen", 0), Ln("push_varlen", 100), Ln("push_crc_ieee", 0), Ln("push_crc_cast", 0)}
 PopOp == Ln("pop", 0)
 
